@@ -27,7 +27,12 @@ list=""
 for dir in selftest/C*; do
   prop=$(basename $dir)
   [ "$want" != "all" ] && [ "$want" != "quick" ] && [ "$want" != "thorough" ] && [ "$want" != "$prop" ] && continue
-  for p in $dir/*.patch; do [ -f "$p" ] && list="$list $p"; done
+  for p in $dir/*.patch; do
+    [ -f "$p" ] || continue
+    # SELFTEST_MATCH=<regexp>: only the patches whose path matches
+    if [ -n "$SELFTEST_MATCH" ] && ! echo "$p" | grep -Eq "$SELFTEST_MATCH"; then continue; fi
+    list="$list $p"
+  done
 done
 res="$scratch/results.txt"
 echo $list | tr ' ' '\n' | xargs -P 4 -I{} sh "$0" --one {} "$scratch" > "$res"
